@@ -31,6 +31,18 @@ CLAIMED.update({
    note="tight limit beyond B-13 is explored (menu goes to B-1) but only reported", ref="6 C06"),
 })
 
+CLAIMED.update({
+ "C02": dict(technique="TLA+ spec of the stream parser (StreamParser.tla: four-index buffer + wire-interval content) model-checked over all caller schedules; edge-cover replay comparing bytes; chain traces validated by Trace_Parsers",
+   text="The buffer is modelled by its four indices and by the identity of its content as wire intervals, so loss, duplication and reordering are visible at any size. TLC explores every interleaving of parse(n, dest) / consume_stream / compress / consume_output / set_stream on the record menu and checks DeliveredIsPrefix, EosExact, ContentMatchesGeometry and the code's own geometry assertions; every transition is executed on the real parser (delivered bytes, stream buffer, status fields). Drivers with 65535-byte records and 200 kB streams through 24-byte..8 KiB buffers are recorded and must be behaviours of the spec.",
+   note="trusted: TLC, encoder/lexer, the locator that finds delivered bytes on the wire (next bytes of the active stream type and id)", ref="6 C02"),
+ "C05": dict(technique="conversion results compared at the end of every replayed edge of both parser models; conversion chain (request->stream->request...) traced on the code and validated by Trace_Parsers with hand-off offsets bound",
+   text="Every replayed transition of both models ends with the conversions on a clone of the real parser (leftover bytes equal the wire interval the spec predicts; the new parser's free space). Chains of 1..3 requests through one shared buffer, with callers that stop reading at arbitrary points, are recorded; the Trace spec re-creates each parser from the predecessor's state (RPInitAt / SPInit), so a lost, duplicated or shifted byte at any hand-off makes the next events unexplainable.",
+   note="the hand-off offsets used to describe the bytes (lexer phases) come from the recorded run and are themselves bound by the to_input/to_request events", ref="6 C05"),
+ "C18": dict(technique="TLC action properties StreamMonotone / RejectChangesNothing / ReselectKeepsBuffer and invariant DeliveredIsPrefix over all roles x selections x record orders; edge-cover replay; chain traces",
+   text="The role x current x requested table is finite and reached exhaustively through set_stream in every state of the model on all 1-, 2- and selected 3-record sequences of stream records (every type, every order, own and foreign ids); the action properties state forward-only movement, that a rejected selection changes nothing and that re-selection keeps buffered data; replays compare set_stream's result, the active stream and the bytes delivered afterwards.",
+   note="async set_stream's panic on rejection is covered with C09", ref="6 C18"),
+})
+
 NOT_YET = {}
 
 def main():
